@@ -172,3 +172,21 @@ PROPS['C09'] = dict(
     modelled='consume2.FromIntGenerator/PSlice/AppendTo, itertools.Take, slices.Collect/Clone',
     assumptions=['searches on infinite sequences are only generated when the requested matches exist within the first 300 digits'],
 )
+
+PROPS['C06'] = dict(
+    theorem='C06_readahead, C06_block_size_ok, C06_in_order, C06_only_producer, C06_never_after_end (Properties/C06.v)',
+    functional=False,
+    level_text='Theorems over the memoizer\'s transition system (one producer, any number of readers, every interleaving, any block size B > 0): in every reachable state the '
+               'source has been consulted for at most imax + B positions (imax = largest index any wait call carried) and for none before the first wait call; along every trace '
+               'the source is consulted by the producer only, one atomic call at a time, at consecutive positions, never after the end marker. B is read from the sources on '
+               'every run and B <= 1000 is re-proved. The property\'s statement is evaluated on the implementation with counting, end-detecting, re-entrancy-detecting digit '
+               'sources over random sequential histories and long scans (and over concurrent schedules in the C05 explorer).',
+    level_note='The tie between the transition system and numberspec.go is the trace validation of C05 (instrumented sync primitives). Which wait indices each API operation issues '
+               '("highest position asked about + at most 2") is evaluated per case by the driver from the spec-level model, not proved per read path. v1/v2 have no public '
+               'constructor for a digit source: the verif hook VerifNewNumber is used.',
+    rule='cases: random histories (C04 generator, generator-backed Numbers) with the source counters read after the producer has quiesced, after about a third of the operations; '
+         'long forward scans and far jumps (1700-10400) on infinite sources. Checked per counter reading: nothing consulted before the first read (0, or 1 for the v3 first-digit '
+         'probe); never more than |D|+1 calls; no call after the end marker; no overlapping calls; calls <= highest position asked about + 2 + 1000. Non-trivial: histories that read.',
+    modelled='sync.Mutex / sync.Cond / go as the labelled transition system of Conc.v',
+    assumptions=['counters are read after the producer goroutine has been idle for ~0.5 ms'],
+)
